@@ -513,7 +513,7 @@ func (r *Resolver) inlineResult(c *ssa.Call, idx int, d int) *Term {
 	}
 	vals := c.Call.Args
 	for _, t := range rets {
-		if len(t.String()) > 400 {
+		if len(t.String()) > 2500 {
 			return nil // too large to be a useful expression: keep the call by name
 		}
 	}
@@ -527,7 +527,7 @@ func (r *Resolver) inlineResult(c *ssa.Call, idx int, d int) *Term {
 		}
 		out = ph
 	}
-	if len(out.String()) > 1500 {
+	if len(out.String()) > 8000 {
 		return nil
 	}
 	return out
@@ -577,6 +577,15 @@ func (r *Resolver) substParamTerms(t *Term, args []*Term, vals []ssa.Value, dept
 						return ft
 					}
 				}
+			}
+		}
+	}
+	if t.Op == "field" && len(t.Args) == 1 && t.Args[0] != nil && t.Args[0].Op == "param" {
+		// field read through a pointer parameter bound to &X: the field of X
+		var i int
+		if _, err := fmt.Sscanf(t.Args[0].Name, "#%d", &i); err == nil && i < len(args) && args[i] != nil {
+			if a := args[i]; a.Op == "un" && a.Name == "&" && len(a.Args) == 1 {
+				return &Term{Op: "field", Name: t.Name, Args: []*Term{a.Args[0]}, Unstable: t.Unstable || a.Args[0].Unstable}
 			}
 		}
 	}
